@@ -1,2 +1,56 @@
 #![allow(warnings, clippy::all, clippy::pedantic, clippy::nursery)]
+//@ module: commands::prune
 use super::*;
+use crate::error::verif_harness as vh;
+
+fn any_size_stats(cap: u64) -> SizeStats {
+    let s = SizeStats { used: kani::any(), unused: kani::any(), remove: kani::any(), repack: kani::any(), repackrm: kani::any() };
+    kani::assume(s.used <= cap && s.unused <= cap);
+    // consistency maintained by set_todo: what is removed / repack-removed is part of unused
+    kani::assume(s.remove <= s.unused && s.repackrm <= s.unused - s.remove);
+    kani::assume(s.repack <= cap);
+    s
+}
+
+fn any_limit() -> LimitOption {
+    match kani::any::<u8>() % 3 {
+        0 => LimitOption::Unlimited,
+        1 => LimitOption::Size(ByteSize(kani::any())),
+        _ => LimitOption::Percentage(kani::any()),
+    }
+}
+
+//@ harness: c18_decide_repack_limits
+//@ prop: C18
+//@ tier: quick
+//@ timeout: 600
+//@ kernel: PrunePlan::decide_repack (limit arithmetic, empty candidate list), SizeStats::{total,unused_after_prune}, PruneStats::size_sum, PackSizer::pack_size
+//@ bound: max_unused and max_repack any LimitOption value (Percentage any u64, Size any u64, Unlimited); per-type size statistics symbolic with used/unused <= 2^50 bytes each (1 PiB per blob type); no repack candidates (no B-tree entry is created, DESIGN C02 obstacle); integer_sqrt unwind 34
+//@ oracle: no panic: no division by zero, no arithmetic overflow for any accepted limit value (0%, 100%, >100%, zero sizes)
+//@ assume: repository sizes are at most 1 PiB per blob type, so p*size cannot overflow u64 for p <= 100; statistics satisfy remove + repackrm <= unused (maintained by set_todo)
+//@ outside: the per-pack decisions (BTreeMap-keyed, DESIGN C02)
+#[kani::proof]
+#[kani::unwind(34)]
+pub(crate) fn c18_decide_repack_limits() {
+    let mut plan = PrunePlan {
+        time: Zoned::default(),
+        used_ids: BTreeMap::new(),
+        existing_packs: BTreeMap::new(),
+        repack_candidates: Vec::new(),
+        index_files: Vec::new(),
+        stats: PruneStats::default(),
+    };
+    let cap = 1u64 << 50;
+    plan.stats.size[BlobType::Data] = any_size_stats(cap);
+    plan.stats.size[BlobType::Tree] = any_size_stats(cap);
+    let max_repack = any_limit();
+    let max_unused = any_limit();
+    let sizer = PackSizer::fixed(kani::any());
+    let pack_sizer = BlobTypeMap::from_array([sizer, sizer]);
+    let ru: bool = kani::any();
+    let nr: bool = kani::any();
+    if let LimitOption::Percentage(p) = max_unused { kani::cover!(p == 100 && !ru, "max-unused 100%"); kani::cover!(p > 100 && !ru, "max-unused > 100%"); }
+    plan.decide_repack(&max_repack, &max_unused, ru, nr, &pack_sizer);
+    kani::cover!(true, "decide_repack returned");
+    std::mem::forget(plan);
+}
